@@ -6,7 +6,7 @@ import ast
 from ..interp import Interp
 from ..lib import is_call, loc
 from ..repo import walk_scope
-from ..terms import App, Atom, Closure, EnumVal, Obj, Sym, vkey
+from ..terms import App, Atom, BoundMethod, Closure, EnumVal, Obj, Partial, Sym, vkey
 from .common import callers_of, scan
 
 DS = "cascade.shm.dataset"
@@ -122,6 +122,9 @@ def r_get_pagein(ctx):
                     ctx.violation(rid, fi.qual, loc(fi), f"get completes in state {status}", f"{atoms}: Manager.get ends with {p.exit[0]} {vkey(p.exit[1])[:80]} instead of answering", row=atoms)
                     continue
                 rv = p.exit[1]
+                if not (isinstance(rv, tuple) and len(rv) == 5):
+                    ctx.undecided(rid, loc(fi), f"Manager.get returns {vkey(rv)[:80]} on {atoms}: not a (shmid, size, rdid, deser_fun, error) tuple the rule can read")
+                    continue
                 da = final_ds(p, "d") or d
                 f_after = p.heap["self.free_space"]
                 granted = isinstance(rv, tuple) and rv[0] != ""
@@ -170,19 +173,35 @@ def _closure_paths(repo, parent, env, locals_, ok, extra_inline=()):
         for e in p.effects:
             if e.kind == "call" and e.data.get("method") == parent and (e.data.get("field") or "").endswith("Manager.disk"):
                 for a in e.data["args"]:
-                    if isinstance(a, Closure):
+                    if isinstance(a, (Closure, Partial)):
                         cb, heap = a, p.heap
     if cb is None:
         from ..repo import AnalysisError
 
         raise AnalysisError(f"Manager.{parent} does not submit a disk job with a completion callback on the model store")
-    cl = {k: c.value for k, c in cb.frame.locals.items()}
-    cl.setdefault("self", Sym("self"))
     env2 = {k: v for k, v in heap.items() if k.startswith("self.")}
     for k in ("self.pageout_count",):
         if k in env:
             env2[k] = env[k]
     ip = Interp(repo, call_models=MODELS, inline=lambda f: f.qual == f"{DS}.Manager.purge" or f.qual in extra_inline)
+    if isinstance(cb, Partial):
+        # functools.partial(self.<method>, captured...): the completion handler is a method; its last parameter is the outcome
+        tgt = cb.fn
+        tfi = tgt.fi if isinstance(tgt, BoundMethod) and tgt.fi is not None else (tgt.fi if hasattr(tgt, "fi") else None)
+        if tfi is None:
+            from ..repo import AnalysisError
+            raise AnalysisError(f"completion handler of Manager.{parent} is not resolvable: {vkey(tgt)}")
+        names = [p_ for p_ in tfi.params if p_ != "self"]
+        args = dict(zip(names, list(cb.args)))
+        args.update(cb.kwargs)
+        free = [n_ for n_ in names if n_ not in args]
+        if len(free) != 1:
+            from ..repo import AnalysisError
+            raise AnalysisError(f"cannot tell the outcome parameter of {tfi.qual}: free parameters {free}")
+        args[free[0]] = ok
+        return tfi, ip.explore(tfi, env=env2, args=args)
+    cl = {k: c.value for k, c in cb.frame.locals.items()}
+    cl.setdefault("self", Sym("self"))
     return cb.fi, ip.explore(cb.fi, env=env2, args={"ok": ok}, closure_locals=cl)
 
 
@@ -314,13 +333,15 @@ def r_space_writers(ctx):
 
 def r_residency_pairing(ctx):
     """C08.R3 (sites): every += / -= on free_space sits in a function whose residency pairing is decided by a model rule."""
-    covered = {f"{DS}.Manager.add", f"{DS}.Manager.page_in", f"{DS}.Manager.page_out.callback", f"{DS}.Manager.purge"}
+    covered = {f"{DS}.Manager.add", f"{DS}.Manager.page_in", f"{DS}.Manager.page_out.callback", f"{DS}.Manager.purge",
+               f"{DS}.Manager.page_out", f"{DS}.Manager.page_in.callback", f"{DS}.Manager.get"}
     n = 0
     for fi, node, kind, det in scan().attr_sites("free_space", ("cascade.shm",)):
         if kind != "aug":
             continue
         n += 1
-        if fi.qual in covered:
+        from .common import helper_of as _helper_of
+        if fi.qual in covered or _helper_of(ctx.repo, fi.qual, covered):
             ctx.ok("C08.R3", loc(fi, node), f"free_space {det} in {fi.qual.rsplit('Manager.', 1)[-1]} (pairing decided by a model rule)")
         else:
             ctx.undecided("C08.R3", loc(fi, node), f"new free_space update site in {fi.qual}: no pairing rule covers it")
@@ -517,7 +538,7 @@ def r_pageout_transition(ctx):
         sub = [e for e in p.effects if e.kind == "call" and e.data.get("method") == "page_out" and (e.data.get("field") or "").endswith("Manager.disk")]
         st_ = [e for e in p.effects if e.kind == "store" and e.data.get("attr") == "status"]
         if len(sub) != 1 or not st_ or st_[0].data["value"] is not sst("paging_out") or st_[0].seq > sub[0].seq or sub[0].data["args"][0] != "shm-d" \
-                or not isinstance(sub[0].data["args"][1], Closure):
+                or not isinstance(sub[0].data["args"][1], (Closure, Partial)):
             ctx.violation("C09.R6", fi.qual, loc(fi), "paging_out before submit", "page_out must set status=paging_out before submitting exactly one disk job for the dataset's segment with a completion callback")
         else:
             ctx.ok("C09.R6", loc(fi), "status=paging_out set before the disk job is submitted")
@@ -608,6 +629,9 @@ def r_reader_ids(ctx):
             ctx.undecided(rid, loc(fi), f"history step {i} ({step}) not deterministic")
             return
         if step == "open":
+            if not (isinstance(ps[0].exit[1], tuple) and len(ps[0].exit[1]) == 5):
+                ctx.undecided(rid, loc(fi), f"Manager.get returns {vkey(ps[0].exit[1])[:80]}: cannot read the reader id")
+                return
             ids.append(ps[0].exit[1][2])
         heap = {k: v for k, v in ps[0].heap.items() if k.startswith("self.")}
     d = heap["self.datasets"]["k"]
